@@ -1,5 +1,159 @@
-import SqliteDissect.Model.Codec
-import SqliteDissect.Spec.Varint
+/-
+C15 — varint and serial-type codecs are exact inverses of SQLite's encodings.
+
+Property theorems only (helper lemmas live in Proofs/Codec.lean).  `Model.*` mirrors the Python
+(sqlite_dissect/utilities.py, carving/utilities.py); `Spec.*` is SQLite's definition.
+-/
+import SqliteDissect.Proofs.Codec
+
 namespace SqliteDissect.Properties.C15
-theorem placeholder : True := trivial
+open SqliteDissect SqliteDissect.Model
+
+/-! ### Varints -/
+
+/-- decode_varint refines SQLite's varint reader for every buffer and every offset: same
+value (as a signed 64-bit integer), same number of bytes consumed, and it fails (TypeError
+from `ord(b'')`) exactly when SQLite's reader runs out of bytes. -/
+theorem decode_eq_spec (b : Buf) (hb : b.WF) (off : Nat) :
+    decodeVarint b off =
+      match Spec.getVarint (b.toList.drop off) with
+      | some (u, n) => .ok (Spec.toI64 u, n)
+      | none => .error .typeError := by
+  exact Proofs.Codec.decode_eq_spec b hb off
+
+/-- encode_varint produces SQLite's canonical encoding for every signed 64-bit integer … -/
+theorem encode_eq_spec (i : Int) (hlo : -(2 ^ 63 : Int) ≤ i) (hhi : i < (2 ^ 63 : Int)) :
+    encodeVarint i = .ok (Spec.putVarint (Spec.toU64 i)) := by
+  exact Proofs.Codec.encode_eq_spec i hlo hhi
+
+/-- … and rejects everything else. -/
+theorem encode_rejects (i : Int) (h : i < -(2 ^ 63 : Int) ∨ (2 ^ 63 : Int) ≤ i) :
+    encodeVarint i = .error .parseError := by
+  exact Proofs.Codec.encode_rejects i h
+
+/-- SQLite's reader inverts SQLite's writer (whatever follows the varint). -/
+theorem spec_get_put (u : Nat) (hu : u < 2 ^ 64) (rest : List Nat) :
+    Spec.getVarint (Spec.putVarint u ++ rest) = some (u, (Spec.putVarint u).length) := by
+  exact Proofs.Codec.spec_get_put u hu rest
+
+theorem spec_put_length (u : Nat) : (Spec.putVarint u).length = Spec.varintLen u := by
+  exact Proofs.Codec.spec_put_length u
+
+theorem spec_put_bytes (u : Nat) (hu : u < 2 ^ 64) : ∀ x ∈ Spec.putVarint u, x < 256 := by
+  exact Proofs.Codec.spec_put_bytes u hu
+
+/-- canonical = shortest: any byte string that reads as `u` is at least as long as `putVarint u` -/
+theorem spec_shortest (bs : List Nat) (hbs : ∀ x ∈ bs, x < 256) (u n : Nat) (h : Spec.getVarint bs = some (u, n)) :
+    (Spec.putVarint u).length ≤ n := by
+  exact Proofs.Codec.spec_shortest bs hbs u n h
+
+/-- Round trip through the *model of the code*: decoding what encode produced (followed by
+arbitrary bytes) returns the same integer and the number of bytes consumed. -/
+theorem decode_encode (i : Int) (hlo : -(2 ^ 63 : Int) ≤ i) (hhi : i < (2 ^ 63 : Int))
+    (rest : List Nat) (hrest : ∀ x ∈ rest, x < 256) :
+    ∃ bs, encodeVarint i = .ok bs ∧
+      decodeVarint (Buf.ofList (bs ++ rest)) 0 = .ok (i, bs.length) := by
+  exact Proofs.Codec.decode_encode i hlo hhi rest hrest
+
+/-- The encoding is the shortest one that decodes to that integer. -/
+theorem encode_shortest (b : Buf) (hb : b.WF) (off : Nat) (i : Int) (n : Nat)
+    (h : decodeVarint b off = .ok (i, n)) :
+    ∃ bs, encodeVarint i = .ok bs ∧ bs.length ≤ n := by
+  exact Proofs.Codec.encode_shortest b hb off i n h
+
+/-- A successful decode consumes between 1 and 9 bytes, all inside the buffer, and yields a
+signed 64-bit integer. -/
+theorem decode_consumes (b : Buf) (hb : b.WF) (off : Nat) (i : Int) (n : Nat)
+    (h : decodeVarint b off = .ok (i, n)) :
+    1 ≤ n ∧ n ≤ 9 ∧ off + n ≤ b.size ∧ -(2 ^ 63 : Int) ≤ i ∧ i < (2 ^ 63 : Int) := by
+  exact Proofs.Codec.decode_consumes b hb off i n h
+
+/-- The only failure is TypeError (reading past the end). -/
+theorem decode_error_kind (b : Buf) (off : Nat) (e : PyErr) (h : decodeVarint b off = .error e) :
+    e = .typeError := by
+  exact Proofs.Codec.decode_error_kind b off e h
+
+/-- Decoding backwards from the end of a varint of up to eight bytes (value below 2^56) returns
+the value and the start position, provided the byte before it (if any) has its high bit clear. -/
+theorem rev_decode (v : Nat) (hv : v < 2 ^ 56) (pre : List Nat)
+    (hpre : ∀ x, pre.getLast? = some x → x < 128) :
+    decodeVarintRev (Buf.ofList (pre ++ Spec.putVarint v)) (pre.length + (Spec.putVarint v).length) 9
+      = .ok (.value v pre.length) := by
+  exact Proofs.Codec.rev_decode v hv pre hpre
+
+/-! ### Serial types -/
+
+/-- get_content_size agrees with SQLite's serial-type length for every serial type; the reserved
+types 10 and 11 (and negative values) are rejected. -/
+theorem content_size_eq_spec (st : Int) :
+    getContentSize st =
+      match Spec.serialTypeLen st with
+      | some n => .ok n
+      | none => .error .valueError := by
+  exact Proofs.Codec.content_size_eq_spec st
+
+/-- get_record_content agrees with SQLite's record format whenever the body holds the content. -/
+theorem record_content_eq_spec (st : Int) (body : Buf) (hb : body.WF) (off n : Nat)
+    (hn : Spec.serialTypeLen st = some n) (hfit : off + n ≤ body.size) :
+    getRecordContent st body off =
+      match Spec.serialGet st ((body.toList.drop off).take n) with
+      | some v => .ok (n, v)
+      | none => .error .valueError := by
+  exact Proofs.Codec.record_content_eq_spec st body hb off n hn hfit
+
+/-- Spec.serialGet is defined on every non-reserved serial type given exactly its content. -/
+theorem spec_serialGet_defined (st : Int) (n : Nat) (c : List Nat)
+    (hn : Spec.serialTypeLen st = some n) (hc : c.length = n) :
+    ∃ v, Spec.serialGet st c = some v := by
+  exact Proofs.Codec.spec_serialGet_defined st n c hn hc
+
+theorem reserved_rejected (body : Buf) (off : Nat) :
+    getRecordContent 10 body off = .error .valueError ∧
+    getRecordContent 11 body off = .error .valueError ∧
+    getContentSize 10 = .error .valueError ∧ getContentSize 11 = .error .valueError := by
+  exact Proofs.Codec.reserved_rejected body off
+
+/-- fixed-width types whose content is cut short are an error (struct.error), never a default -/
+theorem short_body_rejected (st : Int) (hst : 1 ≤ st ∧ st ≤ 7) (body : Buf) (off n : Nat)
+    (hn : Spec.serialTypeLen st = some n) (hshort : body.size < off + n) :
+    getRecordContent st body off = .error .structError := by
+  exact Proofs.Codec.short_body_rejected st hst body off n hn hshort
+
+/-- Two's complement round trip of the specification for the widths SQLite uses
+(this is where 24- and 48-bit sign extension lives). -/
+theorem spec_twos_roundtrip (w : Nat) (hw : w = 1 ∨ w = 2 ∨ w = 3 ∨ w = 4 ∨ w = 6 ∨ w = 8) (i : Int)
+    (hlo : -(2 ^ (8 * w - 1) : Int) ≤ i) (hhi : i < (2 ^ (8 * w - 1) : Int)) :
+    Spec.twosVal (Spec.twosBytes w i) = i ∧ (Spec.twosBytes w i).length = w ∧
+      ∀ x ∈ Spec.twosBytes w i, x < 256 := by
+  exact Proofs.Codec.spec_twos_roundtrip w hw i hlo hhi
+
+/-- the integer round trip through the model of the code, for every integer serial type -/
+theorem int_roundtrip (st : Int) (w : Nat)
+    (hst : (st = 1 ∧ w = 1) ∨ (st = 2 ∧ w = 2) ∨ (st = 3 ∧ w = 3) ∨ (st = 4 ∧ w = 4) ∨ (st = 5 ∧ w = 6) ∨ (st = 6 ∧ w = 8))
+    (i : Int) (hlo : -(2 ^ (8 * w - 1) : Int) ≤ i) (hhi : i < (2 ^ (8 * w - 1) : Int)) :
+    getRecordContent st (Buf.ofList (Spec.twosBytes w i)) 0 = .ok (w, .int i) := by
+  exact Proofs.Codec.int_roundtrip st w hst i hlo hhi
+
+/-- The body size computed from a header equals the sum of its column sizes. -/
+theorem body_size_sum (sts : List Int)
+    (hsts : ∀ st ∈ sts, 0 ≤ st ∧ st < (2 ^ 63 : Int) ∧ st ≠ 10 ∧ st ≠ 11) :
+    calcBodyContentSize (Buf.ofList (sts.flatMap fun st => Spec.putVarint (Spec.toU64 st))) =
+      .ok ((sts.map fun st => (Spec.serialTypeLen st).getD 0).sum) := by
+  exact Proofs.Codec.body_size_sum sts hsts
+
+/-- class mapping used by signatures: blob ↦ -1, text ↦ -2, everything else itself -/
+theorem serial_signature_class (st : Int) (hst : 0 ≤ st) :
+    serialTypeSignature st =
+      if st < 12 then st else if st % 2 = 0 then -1 else -2 := by
+  exact Proofs.Codec.serial_signature_class st hst
+
+/-! ### Non-vacuity: concrete objects meeting the hypotheses -/
+
+example : decodeVarint (Buf.ofList [0x81, 0x00]) 0 = .ok (128, 2) := by decide
+example : encodeVarint (-1) = .ok [255, 255, 255, 255, 255, 255, 255, 255, 255] := by decide
+example : encodeVarint 0 = .ok [0] := by decide
+example : decodeVarintRev (Buf.ofList ([0x05] ++ Spec.putVarint 300)) 3 9 = .ok (.value 300 1) := by decide
+example : getRecordContent 3 (Buf.ofList [0xFF, 0xFF, 0xFE]) 0 = .ok (3, .int (-2)) := by decide
+example : calcBodyContentSize (Buf.ofList [1, 13, 0x81, 0x00]) = .ok (1 + 0 + 58) := by decide
+
 end SqliteDissect.Properties.C15
